@@ -15,6 +15,7 @@ import Exmex.Proofs.FlattenDefs
 import Exmex.Model.ValModel
 import Exmex.Model.Calc
 import Exmex.Model.Diff
+import Exmex.Model.FlatCalc
 import Exmex.Generated.RuntimeTables
 import Exmex.Spec.Surface
 open Exmex
@@ -650,13 +651,27 @@ def histStep (I : Interp Sym) (t : Table) (flat : Bool) (pool : Array PoolEx) (o
   let fin (r : Res (DeepEx Sym)) : Res PoolEx := match r with
     | .ok d => .ok (poolFromDeep I t flat d)
     | .error e => .error e
+  let getF (s : String) : Option (FlatEx Sym) :=
+    match pool[poolIdx pool s]? with
+    | some (.inl e) => some e
+    | _ => none
+  let finF (r : Res (FlatEx Sym)) : Res PoolEx := match r with
+    | .ok e => .ok (.inl e)
+    | .error e => .error e
   match f with
   | ["b", i, j, nm] =>
+    -- flat operands: the model of `Calculate::operate_binary` (Model/FlatCalc.lean)
+    match getF i, getF j with
+    | some a, some b => finF (a.operateBin I t b (unhex nm))
+    | _, _ =>
     match get i, get j with
     | .ok a, .ok b => fin (a.operateBin I t b (unhex nm))
     | .error e, _ => .error e
     | _, .error e => .error e
   | ["u", i, nm] =>
+    match getF i with
+    | some a => finF (a.operateUnary I t (unhex nm))
+    | none =>
     match get i with
     | .ok a => fin (a.operateUnary I t (unhex nm))
     | .error e => .error e
@@ -670,6 +685,16 @@ def histStep (I : Interp Sym) (t : Table) (flat : Bool) (pool : Array PoolEx) (o
       match splitOn kv "=" with
       | [k, v] => some (unhex k, poolIdx pool v)
       | _ => none)
+    match getF i with
+    | some a =>
+      let σF : Str → Option (FlatEx Sym) := fun x =>
+        match pairs.find? (fun p => p.1 == x) with
+        | some (_, j) => match pool[j]? with
+          | some (.inl e) => some e
+          | _ => none
+        | none => none
+      finF (a.subs I t σF)
+    | none =>
     match get i with
     | .error e => .error e
     | .ok a =>
